@@ -104,6 +104,24 @@ func docModel(t *Terminal) (*elemM, []string) {
 				if m := byKey[e.Args[0].Key()]; m != nil {
 					m.Text = e.Args[1]
 				}
+				// elements laid out by one loop ([create(e) for e in coll]) and filled by a second loop over the same
+				// collection: element i receives coll[i] — the same pairing a single loop makes
+				if me, ok := e.Args[0].(*MapElemV); ok {
+					if m := byKey[me.M.Elem.Key()]; m != nil {
+						var cx, ci Val
+						switch iv := stripIface(e.Args[1]).(type) {
+						case *IndexV:
+							cx, ci = iv.X, iv.I
+						case *LoadV:
+							if ia, isIA := iv.Addr.(*IndexAddrV); isIA {
+								cx, ci = ia.X, ia.I
+							}
+						}
+						if cx != nil && ci.Key() == me.I.Key() && cx.Key() == me.M.Coll.Key() {
+							m.Text = e.Args[1]
+						}
+					}
+				}
 			default:
 				// any other etree call that receives an element of the document under construction (CDATA, char data,
 				// comments, directives, foreign children, ...) is outside the escaping text / attribute API
